@@ -2,6 +2,8 @@
 nested definitions and classes with rich signatures, docstrings in any style or none, comments
 and simple bodies. Everything is generated from templates independent of the code under test."""
 
+import random
+
 from vcdd.gen import docgen, irgen
 
 TAB = "    "
@@ -132,6 +134,16 @@ def gen_docstring(r, params, ret, indent, style=None, quote='"""'):
         rt = (ret if with_types else None, irgen.rand_doc(r, stop=False))
     text, _ = docgen.compose(r, style, indent=indent, params=dps, returns=rt, types=with_types,
                              with_footer=r.random() < 0.15, paragraphs=r.randint(1, 2))
+    rq = random.Random(r.random())
+    if rq.random() < 0.08:
+        # prose that talks about quoting: a line that ends with (or holds) the *other* triple quote, or a lone quote character
+        other = "'''" if quote == '"""' else '"""'
+        lines = text.split("\n")
+        cand = [i for i, l in enumerate(lines) if l.strip() and i > 0 and not set(l.strip()) <= set("-")]
+        if cand:
+            i = rq.choice(cand)
+            lines[i] += rq.choice((" one of \", ' or %s", " wrapped in %s", " %s like so %s here", " (a ' mark)")).replace("%s", other)
+            text = "\n".join(lines)
     return "%s%s%s%s" % (TAB * indent, quote, text, quote), style
 
 
